@@ -31,6 +31,13 @@ def generate(rng, tier):
             for xd, yd, dd in itertools.product((0, 1), (0, 1), (0, 1, 2)):
                 cases.append({"group": "conv", "method": mi, "name": name, "x": x, "y": y, "dy": dy, "dt": [xd, yd, dd, 1],
                               "desc": {"group": "conv", "method": name, "dtypes": "%d%d%d" % (xd, yd, dd)}})
+        if x[0] == 0:
+            # a dead bin in the abscissae (NaN): whatever the convention there, the result may not depend on what the heap held
+            xn = [0.5, float("nan"), 2.0, 3.0, 5.0]
+            for mi, name in enumerate(CONV):
+                for dd in (0, 2):
+                    cases.append({"group": "conv", "method": mi, "name": name, "x": xn, "y": y, "dy": dy, "dt": [1, 1, dd, 1],
+                                  "desc": {"group": "conv", "method": name, "dtypes": "11%d" % dd, "nan_abscissa": True}})
         xout = [0, 1, 2, 4]
         for mi, name in ((18, "fourier_transform"), (19, "F_to_G")):
             for xd, yd, od, dd in itertools.product((0, 1), (0, 1), (0, 1), (0, 1, 2)):
@@ -158,8 +165,9 @@ def sequence_calls(pystog, case):
     r = random.Random(case["seed"])
     n = case["n"]
     lo, hi = 0.5, 20.0
-    grids = [np.linspace(lo, hi, n), np.geomspace(lo, hi, n), np.sort(np.concatenate(([lo, hi], np.array([r.uniform(lo, hi) for _ in range(n - 2)])))),
-             np.linspace(lo, hi, n)]
+    # (two of the grids are stored in descending order: what an object does with such a grid may not depend on whether it has seen one before)
+    grids = [np.linspace(lo, hi, n), np.geomspace(lo, hi, n)[::-1].copy(), np.sort(np.concatenate(([lo, hi], np.array([r.uniform(lo, hi) for _ in range(n - 2)])))),
+             np.linspace(hi, lo, n), np.linspace(lo, hi, n)]
     outs = [np.linspace(0.1, 5.0, 7), np.sort(np.concatenate(([0.1, 5.0], np.array([r.uniform(0.1, 5.0) for _ in range(5)])))), np.linspace(0.1, 5.0, 7)]
     kw = L.kwargs_of(MAT)
     calls = []
